@@ -16,6 +16,7 @@ def wide_schema():
     types = {}
     types["Inner"] = [F("x", 1, "sint64"), F("s", 2, "string")]
     types["Box"] = [F("items", 1, "int32", "repeated"), F("attrs", 2, "map", "map", kkind="string", vkind="int32"), F("n", 3, "int32")]     # a sub-message with containers
+    types["Pick"] = [F("pa", 1, "int32", "oneof", group="p"), F("pb", 2, "string", "oneof", group="p"), F("po", 3, "bool", "optional")]    # a sub-message whose content can be "set to the zero value"
     types["Nil"] = []                      # a message type without fields (google.protobuf.Empty-like): only its presence carries information
     types["Node"] = [F("child", 1, "message", msg="Node"), F("kids", 2, "message", "repeated", msg="Node"), F("v", 3, "int32"),
                      F("peer", 4, "message", "optional", msg="Peer")]
@@ -56,7 +57,8 @@ def wide_schema():
                      F("j", 10, "double"), F("k", 11, "message", "repeated", msg="Inner"), F("l", 12, "timestamp"),
                      F("n", 13, "message", msg="Node"), F("z", 14, "message", msg="Nil"), F("zo", 15, "message", "optional", msg="Nil"),
                      F("zr", 16, "message", "repeated", msg="Nil"), F("g_z", 17, "message", "oneof", group="g", msg="Nil"),
-                     F("bx", 18, "message", msg="Box"), F("g_bx", 19, "message", "oneof", group="g", msg="Box"), F("bxo", 20, "message", "optional", msg="Box")]
+                     F("bx", 18, "message", msg="Box"), F("g_bx", 19, "message", "oneof", group="g", msg="Box"), F("bxo", 20, "message", "optional", msg="Box"),
+                     F("pk", 21, "message", msg="Pick"), F("pks", 22, "message", "repeated", msg="Pick")]
     # proto names that are Python keywords / need re-casing: the Python attribute differs from the proto (and JSON) name
     types["TNames"] = [F("from", 1, "string", pyname="from_"), F("in", 2, "int32", pyname="in_"), F("class", 3, "bool", "optional", pyname="class_"),
                        F("lambda", 4, "int64", "repeated", pyname="lambda_"), F("foo_bar", 5, "string"), F("camelCase", 6, "int32", pyname="camel_case"),
@@ -111,11 +113,34 @@ def inner_domain():
             {"k": "msg", "m": {"x": av.aint(2**63 - 1), "s": {"k": "str", "cp": av.cps("é")}}}]
 
 
+def nothing_given(schema, ty, m):
+    """would the constructor of ty get no keyword argument at all for the abstract message value m (although ty has fields) ?"""
+    return bool(schema["types"][ty]) and all(v.get("k") == "unset" for v in m.values())
+
+
+def msg_domain(schema, ty):
+    """the empty message, and one message per scalar field of the type holding the first (zero) and the last value of that
+    field's domain: a oneof member / optional field set to its zero value, a list with one zero, ..."""
+    base = fresh(schema, ty)
+    # (a message object none of whose fields was given is the same thing as a fresh one - see the "fresh" marker - unless every
+    #  field has a value of its own even when empty, like a list)
+    out = [] if nothing_given(schema, ty, base) else [{"k": "msg", "m": base}]
+    for f in schema["types"][ty]:
+        if f["kind"] == "message" or f.get("vkind") == "message":
+            continue
+        dom = [v for v in field_domain(schema, f) if v.get("k") != "unset"]
+        zero = default_of(schema, dict(f, card="implicit")) if f["card"] in ("oneof", "optional") and f["kind"] not in ("wrap", "timestamp", "duration") else dom[0]
+        for v in ([zero, dom[-1]] if len(dom) > 1 else dom):
+            if v != base[f["name"]]:
+                out.append({"k": "msg", "m": dict(base, **{f["name"]: v})})
+    return out[:7]
+
+
 def single_domain(schema, f, kind):
     if kind == "message":
         if f["msg"] == "Inner":
             return inner_domain()
-        return [{"k": "msg", "m": fresh(schema, f["msg"])}]
+        return msg_domain(schema, f["msg"])
     if kind == "timestamp":
         return [{"k": "ts", "us": av.rawint(u)} for u in US_TS] + \
                [{"k": "ts", "us": av.rawint(u), "tz": tz} for u, tz in ((1700000000123456, 330), (0, -480), (-1, 840), (951782400 * 10**6, -720), (5000, 1))]
@@ -285,6 +310,8 @@ def rmsg(schema, ty, rnd, depth=0, density=None):
             out[f["name"]] = {"k": "map", "es": es}
         else:
             out[f["name"]] = rsingle(schema, f, k, rnd, depth)
+            if k == "message" and card == "implicit" and nothing_given(schema, f["msg"], out[f["name"]]["m"]):
+                out[f["name"]] = {"k": "unset"}          # (an object nothing was given to, given to a plain field, is not present)
     return out
 
 
